@@ -101,6 +101,7 @@ template<typename TT> static inline RM flat(const TT& t, size_t cnt) { RM v(cnt)
 
 static sigjmp_buf g_jmp;
 static void on_abort(int) { siglongjmp(g_jmp, 1); }
+static std::string g_hdr;   // case id + inputs of the running case (survives the longjmp)
 
 // strategies
 enum { S_MGSR = 0, S_MGSR_EXPR = 1, S_PIVV = 2, S_PIVV_EXPR = 3, S_PIVM = 4, S_PIVM_EXPR = 5 };
@@ -116,27 +117,42 @@ template<size_t n> struct call_qr<n, S_PIVM_EXPR> { static void go(const Tensor<
 
 } // namespace qrh
 
+// free = false: family member `seed` (A = Q0*R0; full oracle).
+// free = true : an arbitrary small rational matrix.  The square roots are then NOT exact (rat.h returns the floor of
+//   the roots of numerator and denominator) so Q is not orthonormal, but Q*R == P*A, the zero pattern, the pivot and
+//   the sqrt-call count must still hold exactly, and the Lean model run with the same pseudo-root must agree digit
+//   for digit — on inputs where classical and modified Gram-Schmidt DIFFER in exact arithmetic.
+//   Returns false when the case cannot be used (rational overflow / zero column): the caller tries the next seed.
 template<size_t n, int S>
-void run_qr(unsigned seed) {
+bool run_qr_impl(unsigned seed, bool free) {
     using namespace qrh;
     vf::ratpool.reset();
-    RM Q0, R0; make_family(n, seed, Q0, R0);
-    RM A0 = mul(Q0, R0, n);
+    RM Q0, R0, A0;
+    if (!free) { make_family(n, seed, Q0, R0); A0 = mul(Q0, R0, n); }
+    else {
+        Rng g(seed * 2654435761ull + 17 * n + S);
+        A0.assign(n * n, Rat(0));
+        for (size_t i = 0; i < n * n; ++i) { int r = n >= 5 ? g.range(-2, 2) : g.range(-4, 4); A0[i] = (n < 5 && g.next() % 7 == 0) ? Rat::make(r, 2) : Rat(r); }
+        for (size_t i = 0; i < n; ++i) if (g.next() % 3 == 0) A0[i * n + i] = A0[i * n + i] + Rat(g.range(2, 5));
+    }
     Tensor<Rat,n,n> A; for (size_t i = 0; i < n * n; ++i) A.data()[i] = A0[i];
     // outputs pre-filled with a sentinel: an element the library does not write stays 77
     Tensor<Rat,n,n> Q, R, PM; Tensor<size_t,n> PV;
     for (size_t i = 0; i < n * n; ++i) { Q.data()[i] = Rat(77); R.data()[i] = Rat(77); PM.data()[i] = Rat(77); }
     for (size_t i = 0; i < n; ++i) PV.data()[i] = 77;
     const bool piv = S >= S_PIVV, pmat = S >= S_PIVM;
-    std::printf("qr cfg=%s n=%zu strat=%s seed=%u A=%s | ", CFGNAME, n, SNAME[S], seed, join(A0).c_str());
-    std::fflush(stdout);
+    char hdr[256];
+    std::snprintf(hdr, sizeof hdr, "qr cfg=%s n=%zu strat=%s seed=%u free=%d A=", CFGNAME, n, SNAME[S], seed, free ? 1 : 0);
+    g_hdr = std::string(hdr) + join(A0) + " | ";
+    std::string line = g_hdr;
     Rat det(0);
     long nsq = 0, sqc = 0;
     void (*old)(int) = std::signal(SIGABRT, on_abort);
     if (sigsetjmp(g_jmp, 1) != 0) {
         std::signal(SIGABRT, old);
-        std::printf("Q=trap R=trap P=trap DET=trap NSQ=-1 SQC=-1 ORACLE=trap(rational-overflow-or-division-by-zero)\n");
-        return;
+        if (free) return false;
+        std::printf("%sQ=trap R=trap P=trap DET=trap NSQ=-1 SQC=-1 ORACLE=trap(rational-overflow-or-division-by-zero)\n", g_hdr.c_str());
+        return true;
     }
     vf::rat_sqrt_calls = 0; vf::rat_sqrt_nonsquare = 0;
     call_qr<n, S>::go(A, Q, R, PV, PM);
@@ -144,7 +160,11 @@ void run_qr(unsigned seed) {
     det = determinant<DetCompType::QR>(A);
     nsq = vf::rat_sqrt_nonsquare;          // det's own factorisation counts too
     long sqc_det = vf::rat_sqrt_calls - sqc;
-    std::signal(SIGABRT, old);
+    if (free) {
+        // every intermediate value is in the pool: all below 2^60 means no __int128 product can have wrapped
+        const vf::i128 LIM = (vf::i128)1 << 60;
+        for (size_t i = 0; i < vf::ratpool.v.size(); ++i) if (vf::iabs(vf::ratpool.v[i].n) > LIM || vf::ratpool.v[i].d > LIM) { std::signal(SIGABRT, old); return false; }
+    }
 
     // ---- observables
     std::vector<size_t> perm(n);
@@ -161,7 +181,7 @@ void run_qr(unsigned seed) {
     }
     std::string ps; for (size_t i = 0; i < n; ++i) { if (i) ps += ","; ps += std::to_string(perm[i]); }
     RM Qv = flat(Q, n * n), Rv = flat(R, n * n);
-    std::printf("Q=%s R=%s P=%s DET=%s NSQ=%ld SQC=%ld", join(Qv).c_str(), join(Rv).c_str(), ps.c_str(), det.str().c_str(), nsq, sqc);
+    line += "Q=" + join(Qv) + " R=" + join(Rv) + " P=" + ps + " DET=" + det.str() + " NSQ=" + std::to_string(nsq) + " SQC=" + std::to_string(sqc);
 
     // ---- oracle (independent of the model)
     std::string why;
@@ -176,16 +196,18 @@ void run_qr(unsigned seed) {
     { std::vector<int> seen(n, 0); for (size_t i = 0; i < n; ++i) if (perm[i] < n) seen[perm[i]]++; for (size_t i = 0; i < n; ++i) if (seen[i] != 1) perm_ok = false; }
     if (!perm_ok) why += " P-not-a-permutation";
     for (size_t i = 0; i < n && why.empty(); ++i) if (perm[i] != eperm[i]) why += " P-differs-from-argmax-pivot@" + std::to_string(i);
-    if (nsq != 0) why += " non-square-sqrt-argument";
+    if (!free && nsq != 0) why += " non-square-sqrt-argument";
     if (sqc != (long)n || sqc_det != (long)n) why += " sqrt-call-count";
     for (size_t i = 0; i < n; ++i) for (size_t j = 0; j < i; ++j) if (!(Rv[i * n + j] == Rat(0))) { why += " R-below-diagonal-nonzero@" + std::to_string(i) + "," + std::to_string(j); i = n; break; }
-    // Q == P.Q0, R == R0
-    for (size_t i = 0; i < n * n; ++i) if (!(Rv[i] == R0[i])) { why += " R!=R0@" + std::to_string(i / n) + "," + std::to_string(i % n); break; }
-    if (perm_ok) for (size_t i = 0; i < n * n; ++i) if (!(Qv[i] == Q0[perm[i / n] * n + i % n])) { why += " Q!=P.Q0@" + std::to_string(i / n) + "," + std::to_string(i % n); break; }
-    // Q^T Q == I, Q R == P.A   (also meaningful when Q0,R0 are not reproduced)
+    if (!free) {
+        // Q == P.Q0, R == R0
+        for (size_t i = 0; i < n * n; ++i) if (!(Rv[i] == R0[i])) { why += " R!=R0@" + std::to_string(i / n) + "," + std::to_string(i % n); break; }
+        if (perm_ok) for (size_t i = 0; i < n * n; ++i) if (!(Qv[i] == Q0[perm[i / n] * n + i % n])) { why += " Q!=P.Q0@" + std::to_string(i / n) + "," + std::to_string(i % n); break; }
+    }
+    // Q^T Q == I (needs exact roots), Q R == P.A (holds for any non-zero root)
     {
         bool o = true, rc = true;
-        for (size_t a = 0; a < n; ++a) for (size_t b = 0; b < n; ++b) { Rat s(0); for (size_t k = 0; k < n; ++k) s = s + Qv[k * n + a] * Qv[k * n + b]; if (!(s == Rat(a == b ? 1 : 0))) o = false; }
+        if (!free) for (size_t a = 0; a < n; ++a) for (size_t b = 0; b < n; ++b) { Rat s(0); for (size_t k = 0; k < n; ++k) s = s + Qv[k * n + a] * Qv[k * n + b]; if (!(s == Rat(a == b ? 1 : 0))) o = false; }
         RM QR = mul(Qv, Rv, n);
         if (perm_ok) for (size_t i = 0; i < n * n; ++i) if (!(QR[i] == A0[perm[i / n] * n + i % n])) rc = false;
         if (!o) why += " QtQ!=I";
@@ -197,7 +219,7 @@ void run_qr(unsigned seed) {
             for (size_t i = 0; i < n * n; ++i) if (!(back.data()[i] == A0[i])) { why += " reconstruct(QR,P)!=A"; break; }
         }
     }
-    { Rat p(1); for (size_t i = 0; i < n; ++i) p = p * R0[i * n + i]; if (!(det == p)) why += " det!=prod(R0_ii)"; }
+    if (!free) { Rat p(1); for (size_t i = 0; i < n; ++i) p = p * R0[i * n + i]; if (!(det == p)) why += " det!=prod(R0_ii)"; }
     // the expression overloads of pivot_inplace (unary_piv_op.h) must produce the same permutation, as an index
     // vector and as a complete 0/1 matrix (destination pre-filled with the sentinel)
     if (piv) {
@@ -212,8 +234,18 @@ void run_qr(unsigned seed) {
         if (!okm) why += " pivot_inplace(expr,P)-not-the-permutation-matrix";
     }
     for (size_t i = 1; i < why.size(); ++i) if (why[i] == ' ') why[i] = ';';
-    std::printf(" ORACLE=%s\n", why.empty() ? "ok" : ("FAIL:" + why.substr(1)).c_str());
-    if (g_verbose) {
+    std::signal(SIGABRT, old);
+    std::printf("%s ORACLE=%s\n", line.c_str(), why.empty() ? "ok" : ("FAIL:" + why.substr(1)).c_str());
+    if (g_verbose && !free) {
         std::printf("#   Q0=%s\n#   R0=%s\n", join(Q0).c_str(), join(R0).c_str());
     }
+    return true;
+}
+
+template<size_t n, int S> void run_qr(unsigned seed) { run_qr_impl<n, S>(seed, false); }
+
+// arbitrary-input case: the first usable seed among seed, seed+7919, ... (the line shows the seed actually used)
+template<size_t n, int S> void run_qr_free(unsigned seed) {
+    for (unsigned t = 0; t < 40; ++t) if (run_qr_impl<n, S>(seed + 7919u * t, true)) return;
+    std::printf("# qr cfg=%s n=%zu strat=%s seed=%u free=1: no usable case among 40 seeds (rational overflow), skipped\n", CFGNAME, n, qrh::SNAME[S], seed);
 }
